@@ -233,6 +233,8 @@ def verdicts (st : DState) (op : String) (args : List String) (goRes : String) :
   match goOk goRes with
   | none => [("*", if goRes.startsWith "BADOP" then "ok" else "panic-or-hang")]
   | some res =>
+    -- a run-time panic inside a composite observation (band ops print PANIC for the accessor that panicked)
+    if (res.getD []).contains "PANIC" then [("*", "panic-in-observation")] else
     match op, args with
     | "macenc", [tok] =>
       match parsePayload tok with
